@@ -244,6 +244,17 @@ theorem steps_recv (s : Sock) (hudp : s.tcp = false) (size : Nat) (d : Bytes) (h
       by simp [sentOf_append, sentOf, h.sent]⟩⟩
   simp only [recv, hq, hudp, Bool.false_eq_true, ↓reduceIte, Option.getD_some, List.take_of_length_le hl]
 
+/-- a datagram is received truncated to the buffer size -/
+theorem steps_recv_take (s : Sock) (hudp : s.tcp = false) (size : Nat) (d : Bytes)
+    (q : List Delivery) (fs : List Bool) (sn : List (Bytes × Bool)) :
+    Steps s (recv s (some size)) (.ok (d.take size)) ⟨.data d :: q, fs, sn⟩ ⟨q, fs, sn⟩ := by
+  intro w h
+  have hq : w.conns.getD s.id [] = .data d :: q := h.queue
+  refine ⟨{ w with conns := setAt w.conns s.id q, log := w.log ++ [.recv s.id (some size) (some (d.take size).length)] },
+    ?_, ⟨h.faults, by simpa [setAt_length] using h.isOpen, by rw [getD_setAt]; simp [h.isOpen],
+      by simp [sentOf_append, sentOf, h.sent]⟩⟩
+  simp only [recv, hq, hudp, Bool.false_eq_true, ↓reduceIte, Option.getD_some]
+
 /-- silence: the receive times out -/
 theorem steps_recv_silence (s : Sock) (size : Option Nat) (q : List Delivery) (fs : List Bool)
     (sn : List (Bytes × Bool)) :
